@@ -348,12 +348,12 @@ pub fn run(cfg: &Cfg) -> Stats {
         total = total.merge(s);
         total.subspace(&format!("'en-' + core alphabet, {k} subtags: upper-case/'_' image and u/t swap"), n, true);
     }
-    let n = cfg.pick(300_000, 8_000_000);
+    let n = cfg.pick(1_000_000, 8_000_000);
     let strat = (gen::s_ast(), s_tf());
     let s = run_strategy(&strat, cfg.seed, "c09-ast", n, |(a, t), st| check_ast(a, t, st, Count::Hash));
     total = total.merge(s);
     total.subspace("G2 locales (well-formed or with one irreparable defect) x structural/case/separator transforms (proptest)", n, false);
-    let n2 = cfg.pick(150_000, 3_000_000);
+    let n2 = cfg.pick(500_000, 3_000_000);
     let strat2 = (gen::s_near_miss(), any::<u64>(), prop_oneof![Just(0u64), any::<u64>()]);
     let s = run_strategy(&strat2, cfg.seed, "c09-raw", n2, |(b, c, sp), st| check_raw(b, *c, *sp, st, Count::Hash));
     total = total.merge(s);
